@@ -163,5 +163,11 @@ int main(int argc, char** argv)
         });
     };
     prop.run = runCase;
+    prop.normalize = [](EncCase& c) {
+        EncNormParams np;
+        np.allowErrorFlag = true;
+        np.allowEmptyPayload = true;
+        normalizeEncCase(c, np);
+    };
     return pbtMain(argc, argv, prop);
 }
